@@ -946,6 +946,16 @@ func (c *Ctx) scanCallWrites(cc *ssa.CallCommon, w *writeSet, depth int, seen ma
 		}
 		return
 	}
+	if ai, ok := outPtrFns[name]; ok {
+		if mi, ok := cc.Args[ai].(*ssa.MakeInterface); ok {
+			if pt, ok := under(mi.X.Type()).(*types.Pointer); ok {
+				w.add(rootKey(pt.Elem()), false)
+				return
+			}
+		}
+		w.all = true
+		return
+	}
 	if _, ok := libModels[name]; ok {
 		return // modelled and writes nothing
 	}
